@@ -244,7 +244,36 @@ def copy_def(cx, fn, var):
     return defs[0]
 
 
-def writeset(cx, fn, var, loop, chan_var, law_names, guard_test=None):
+TRANSCENDENTAL = {'np.exp', 'np.log', 'np.log10', 'np.log2', 'np.power', 'np.sqrt', 'math.pow', 'math.exp', 'math.log', 'pow'}
+
+
+def scalar_path_obligations(fn, store, law_names):
+    """SCALARPATH: the events of a channel are converted as an ndarray column, its two limits as
+    scalars.  For a law made only of exactly rounded operations (+ - * /) both routes give the same
+    bits; for a law containing a power/exponential/logarithm - or an opaque callable - the scalar
+    route (C library pow) and the array route (NumPy's vectorised loop) are different routines, so the
+    converted limit need not equal the converted value of an event sitting at the limit."""
+    for l in law_names:
+        defs = [s for s in fn.stmts(ast.Assign) if isinstance(s.targets[0], ast.Name) and s.targets[0].id == l
+                and isinstance(s.value, ast.Lambda)]
+        if not defs:
+            fn.ob('SCALARPATH', 'limits and events of a converted channel are evaluated by the same numeric routine', False, store,
+                  detail='the limits are passed to the caller-supplied curve `%s` as scalars, the events as an array column: '
+                  'a curve using a power (as the library\'s own standard curves do) may give a limit that differs in the last bit '
+                  'from the converted event at the limit, so the strict high/low gate stops commuting with the conversion' % l,
+                  key='scalar-path|curve')
+            continue
+        for d in defs:
+            body = d.value.body
+            trans = any(isinstance(x, ast.BinOp) and isinstance(x.op, ast.Pow) for x in ast.walk(body)) or \
+                any(isinstance(x, ast.Call) and dotted(x.func) in TRANSCENDENTAL for x in ast.walk(body))
+            fn.ob('SCALARPATH', 'limits and events of a converted channel are evaluated by the same numeric routine', not trans, d,
+                  detail='' if not trans else 'law `%s` contains a power: the limits are evaluated on Python scalars (C pow), the events '
+                  'on an array column (NumPy loop); the results may differ in the last bit' % norm_stmt(d.value),
+                  key='scalar-path|' + ('log-law' if trans else 'linear-law'))
+
+
+def writeset(cx, fn, var, loop, chan_var, law_names, guard_test=None, scalar_path=False):
     """All stores of the function go to `var` at [:, chan_var] / ._range[chan_var] inside `loop`;
     the value stored in the column is law(var[:, chan_var]); range store is [law(R[0]), law(R[1])]."""
     data = fn.params[0]
@@ -275,6 +304,8 @@ def writeset(cx, fn, var, loop, chan_var, law_names, guard_test=None):
             ok = inside and got in want
             fn.ob('SAMELAW', 'range limits of the loop channel go through the same law as its events', ok, st,
                   detail='' if ok else 'range store `%s`' % norm_stmt(st), key='range-store')
+            if ok and scalar_path:
+                scalar_path_obligations(fn, st, law_names)
         else:
             fn.ob('WRITESET', 'stores address only the loop channel (events column or its range entry)', False, st,
                   detail='store target `%s`' % norm_stmt(tgt), key='other-store')
@@ -300,7 +331,7 @@ def to_rfi_all(cx, want=('SIB', 'FORMULA', 'NULLDEFAULT', 'WRITESET', 'SAMELAW',
     if 'WRITESET' in want or 'SAMELAW' in want:
         RV = result_var(cx, fn)
         copy_def(cx, fn, RV)
-        nc, nr = writeset(cx, fn, RV, loop, roles['channels'], [tf])
+        nc, nr = writeset(cx, fn, RV, loop, roles['channels'], [tf], scalar_path='SCALARPATH' in want)
         cx.floor('WRITESET', nc, 1, 'column stores in to_rfi')
         if 'SAMELAW' in want:
             cx.floor('SAMELAW', nr, 1, 'range stores in to_rfi')
@@ -380,7 +411,7 @@ def to_mef_all(cx, want=('GUARD', 'PAIR', 'WRITESET', 'SAMELAW')):
         fn.ob('PAIR', 'both the curve channels and the requested channels are translated from names to positions', ok,
               tr[0] if tr else fn.ast, detail='' if ok else 'translated: %s' % args, key='translate-both')
     if 'WRITESET' in want or 'SAMELAW' in want:
-        nc, nr = writeset(cx, fn, RV, loop, chi, [sc])
+        nc, nr = writeset(cx, fn, RV, loop, chi, [sc], scalar_path='SCALARPATH' in want)
         cx.floor('WRITESET', nc, 1, 'column stores in to_mef')
         if 'SAMELAW' in want:
             cx.floor('SAMELAW', nr, 1, 'range stores in to_mef')
